@@ -47,6 +47,13 @@ Theorem C16_relay_needs_outbound : forall srv e inp evs fin,
   end.
 Proof. exact relay_needs_outbound. Qed.
 
+(* configuring any credential entry - even one whose name expands to nothing and is dropped -
+   switches "no authentication" off for good: the method reply 05 00 is never sent *)
+Theorem C16_no_noauth_when_credentials : forall repl upper c srv inp evs r,
+  provision repl upper c = Some srv -> credentials c <> [] ->
+  negotiate srv inp = (evs, r) -> ~ In (Out [x05; x00]) evs.
+Proof. exact no_noauth_when_credentials. Qed.
+
 (* ---- non-vacuity: credentials {"alice": "{env.PW}"} with PW = "s3cret", commands ["connect"] *)
 Definition ex_get (k : bytes) : option bytes := assoc k [(unhex "656e762e5057", unhex "733363726574")].
 Definition ex_cfg : config :=
@@ -80,4 +87,5 @@ Print Assumptions C16_no_outbound_unless_authorised.
 Print Assumptions C16_resolve_only_after_auth.
 Print Assumptions C16_refused_has_no_outbound.
 Print Assumptions C16_relay_needs_outbound.
+Print Assumptions C16_no_noauth_when_credentials.
 Print Assumptions C16_nonvacuous.
